@@ -1,7 +1,19 @@
-//! op "gen" (stub: answers bad-op until the engine is built)
+//! op "gen": `timed_run` = the generic `run` op plus the wall-clock milliseconds it took
+//! (C10 records how long an evaluation under finite limits keeps the interpreter busy).
 
 use serde_json::{json, Value};
+use std::time::Instant;
 
-pub fn op(_req: &Value) -> Value {
-    json!({"bad-op": true})
+pub fn op(req: &Value) -> Value {
+    match req["f"].as_str().unwrap_or("") {
+        "timed_run" => {
+            let t = Instant::now();
+            let mut r = crate::run::op_run(req);
+            if let Some(m) = r.as_object_mut() {
+                m.insert("ms".into(), json!(t.elapsed().as_millis() as u64));
+            }
+            r
+        }
+        _ => json!({"bad-op": true}),
+    }
 }
